@@ -1,10 +1,11 @@
 (* Model/BatteryStation.v — executable (Q) model of what a simulation records for one station:
-   every period the network calls EVSE.set_pilot(pilot, V, period) (generated BaseEVSE_set_pilot),
+   every period the network calls EVSE.set_pilot(pilot, V, period) (generated BaseEVSE_set_pilot, with the
+   class's generated _valid_rate from Model/EVSE.v deciding acceptance),
    whose effect on an attached EV is EV.charge (generated EV_charge) on top of Battery.charge
    (Model/Battery.v charge_call); Simulator._store_actual_charging_rates records
    ev.current_charging_rate, or 0 for a station without EV.  Definitions only. *)
 From Coq Require Import ZArith QArith Qminmax Qabs List Bool String.
-From ACN Require Import Base.Num Base.QExp Gen.Battery_Q Gen.Evse_Q Model.Battery.
+From ACN Require Import Base.Num Base.QExp Gen.Battery_Q Gen.Evse_Q Model.EVSE Model.Battery.
 Import ListNotations.
 Open Scope Q_scope.
 
@@ -45,26 +46,27 @@ Fixpoint set_nth {A} (n : nat) (x : A) (l : list A) : list A :=
 Definition ev0 (b : battery) : evstate := {| e_batt := initial_state b; e_delivered := 0; e_rate := 0 |}.
 
 (* run the slots; sessions: battery of each session; evs: current EV states *)
-Fixpoint run_station (batts : list battery) (evs : list evstate) (cur : Q) (slots : list slot) : list station_out * list evstate :=
+Fixpoint run_station (k : evse_kind) (batts : list battery) (evs : list evstate) (cur : Q) (slots : list slot) : list station_out * list evstate :=
   match slots with
   | [] => ([], evs)
   | Empty p v t :: rest =>
-      let r := BaseEVSE_set_pilot cur None p v t true in
+      let r := BaseEVSE_set_pilot cur None p v t (valid_rate k p) in
       let cur' := BaseEVSE_set_pilot__current_pilot (stateS r) in
-      let '(outs, evs') := run_station batts evs cur' rest in
+      let '(outs, evs') := run_station k batts evs cur' rest in
       ({| so_pilot := cur'; so_rate := 0; so_err := errS r |} :: outs, evs')
-  | Occupied k p v t n1 n2 :: rest =>
-      let r := BaseEVSE_set_pilot cur (Some (Z.of_nat k)) p v t true in
+  | Occupied i p v t n1 n2 :: rest =>
+      let r := BaseEVSE_set_pilot cur (Some (Z.of_nat i)) p v t (valid_rate k p) in
       let cur' := BaseEVSE_set_pilot__current_pilot (stateS r) in
-      let b := nth k batts {| b_kind := Ideal; b_cap := 0; b_maxP := 0; b_init := 0 |} in
-      let e := nth k evs (ev0 b) in
+      let b := nth i batts {| b_kind := Ideal; b_cap := 0; b_maxP := 0; b_init := 0 |} in
+      let e := nth i evs (ev0 b) in
       let '(e', err) := apply_effects b e n1 n2 (BaseEVSE_set_pilot_effects (stateS r)) in
-      let '(outs, evs') := run_station batts (set_nth k e' evs) cur' rest in
+      let '(outs, evs') := run_station k batts (set_nth i e' evs) cur' rest in
       ({| so_pilot := cur'; so_rate := e_rate e'; so_err := err |} :: outs, evs')
   end.
 
 (* ---- correspondence case: one station of a real simulation ---- *)
 Record stationcase := {
+  st_evse : evse_kind;              (* EVSE class and parameters of the station (Model/EVSE.v) *)
   st_batts : list battery;
   st_slots : list slot;
   (* recorded from the simulation: pilot_signals row, charging_rates row, and per session the final
@@ -74,7 +76,7 @@ Record stationcase := {
 }.
 
 Definition check_station (c : stationcase) : bool :=
-  let '(outs, evs) := run_station (st_batts c) (map ev0 (st_batts c)) 0 (st_slots c) in
+  let '(outs, evs) := run_station (st_evse c) (st_batts c) (map ev0 (st_batts c)) 0 (st_slots c) in
   list_eqb Qeqb (map so_pilot outs) (st_pilots c)
   && forallb (fun o => match so_err o with None => true | Some _ => false end) outs
   && all2 Qclose (map so_rate outs) (st_rates c)
